@@ -74,6 +74,14 @@ def run(ctx):
         ctx.extra["functions_without_null_test"] = sorted(k for k, (n, m) in info["handles"].items() if not n
                                                           and not k.startswith(("vnaproperty_", "vnacal_new_solve_internal")))
         ctx.extra["functions_without_magic_test"] = sorted(k for k, (n, m) in info["handles"].items() if n and not m)
+        cat.NULL_UNCHECKED.clear()
+        for k, (n, m) in info["handles"].items():
+            if k.startswith("vnadata_") and not n:
+                cat.NULL_UNCHECKED.add(k[len("vnadata_"):])
+                cat.SKIPPED.append(("catalogue rows %s [handle=NULL]" % k,
+                                    "the C function has no NULL test in front of its first dereference of the object pointer; a NULL "
+                                    "object pointer is outside the property's 'valid object pointers': the model answers Fault and the "
+                                    "tie checks that the library does not return (evidence: null_pointer_dereferenced_by)"))
         if info["order_notes"]:
             ctx.notes.append("order translator: " + "; ".join(info["order_notes"]))
         ok, res = ctx.coq_obligations(["Err/OrderProofs.v", "Err/ContractProofs.v", "Err/ContractProofs2.v", "Err/NewProofs.v",
